@@ -21,6 +21,9 @@ def taint_stores(model):
     return out
 
 
+from ..absnodes import public_value
+
+
 def run(model, rep):
     rep.explanation = ('(TRIG) the trigger list consulted for unresolved builtin names contains exec, eval, locals, globals, vars; a star import and an Exec node also '
                        'write the taint flag, always on the module node. (GATE) the path-fact analysis of minify() is re-run under the hypothesis module.tainted == True: '
@@ -212,8 +215,8 @@ def gate_tree(model, rep, rule, switch_locals, switch_globals, preserve, expect_
         for b in bs:
             if not isinstance(b, Obj):
                 continue
-            name = b.attrs.get('_name', b.attrs.get('name'))
-            pinned = b.attrs.get('_allow_rename') is False
+            name = public_value(model, b, 'name')
+            pinned = public_value(model, b, 'allow_rename') is False
             n += 1
             want = expect_pinned(o.cls, name)
             if want is not None and pinned != want:
